@@ -352,14 +352,37 @@ struct NodeInfo {
     prev: usize,
 }
 
-/// The per-step oracle. Returns (number of logged feasible breakpoints checked, first disagreement).
-fn check_steps(o: &kp::Oracle, log: &Log, got: Option<&Vec<usize>>) -> (u64, Option<(String, String)>) {
-    let mut table = vec![NodeInfo { elem: None, line: 0, fit: kp::DECENT, hyph: false, total: 0, prev: 0 }];
+/// What the per-step oracle found.
+#[derive(Default)]
+struct Steps {
+    /// logged feasible breakpoints whose numbers were judged
+    judged: u64,
+    /// a reported number that is not the one TeX's definitions give (failure): (kind, text)
+    value: Option<(String, String)>,
+    /// the log could not be interpreted the way this harness reads it (numbering, order, bookkeeping
+    /// fields); recorded as an outcome class, never a failure - see AUDIT.md
+    structure: Option<String>,
+}
+
+/// The per-step oracle. What the Logger reports must be *true*: for every feasible breakpoint it
+/// reports (position, predecessor), b, p and d are TeX's badness, penalty and demerits of that line,
+/// the break is legal, does not pass a forced break and is within the threshold; for every active node
+/// it reports, the fitness class and the total are the model's. Which breakpoints and nodes are
+/// reported, in which order and under which numbers is not judged.
+fn check_steps(o: &kp::Oracle, log: &Log, got: Option<&Vec<usize>>) -> Steps {
+    let mut out = Steps::default();
+    let mut table: std::collections::HashMap<usize, NodeInfo> = std::collections::HashMap::new();
+    table.insert(0, NodeInfo { elem: None, line: 0, fit: kp::DECENT, hyph: false, total: 0, prev: 0 });
     // feasible breakpoints logged at the current position: (prev node, model fitness, model total)
     let mut pending: Vec<(usize, u8, i64)> = vec![];
     let mut cur_elem = usize::MAX;
-    let mut steps = 0u64;
     let bad = |b: i64| if b > reftex::arith::INF_BAD { "*".to_string() } else { b.to_string() };
+    macro_rules! value {
+        ($k:expr, $($t:tt)*) => {{ out.value = Some(($k.to_string(), format!($($t)*))); return out; }};
+    }
+    macro_rules! structure {
+        ($($t:tt)*) => {{ out.structure = Some(format!($($t)*)); return out; }};
+    }
     for ev in &log.0 {
         match ev {
             Ev::Feasible { elem, prev, b, p, d, artificial } => {
@@ -367,19 +390,16 @@ fn check_steps(o: &kp::Oracle, log: &Log, got: Option<&Vec<usize>>) -> (u64, Opt
                     pending.clear();
                     cur_elem = *elem;
                 }
-                steps += 1;
-                let Some(pn) = table.get(*prev).copied() else {
-                    return (steps, Some(("bookkeeping".into(), format!("feasible breakpoint at node {elem} names the unknown predecessor @@{prev}"))));
-                };
-                let (Some(a), Some(bi)) = (o.start_of(pn.elem), o.bp_at(*elem)) else {
-                    return (steps, Some(("breakpoint".into(), format!("a break is tried at node {elem}, which is not a legal breakpoint (TeX §866-869)"))));
-                };
+                let Some(pn) = table.get(prev).copied() else { structure!("a feasible breakpoint names a predecessor this harness has not seen") };
+                let Some(a) = o.start_of(pn.elem) else { structure!("predecessor position unknown") };
+                let Some(bi) = o.bp_at(*elem) else { value!("breakpoint", "a break is tried at node {elem}, which is not a legal breakpoint (TeX §866-869)") };
                 if bi < a {
-                    return (steps, Some(("bookkeeping".into(), format!("break at node {elem} does not follow its predecessor @@{prev}"))));
+                    structure!("a break does not follow its predecessor");
                 }
                 if (a..bi).any(|f| o.bps[f].penalty <= kp::EJECT_PENALTY) {
-                    return (steps, Some(("breakpoint".into(), format!("the line @@{prev} -> node {elem} passes over a forced break"))));
+                    value!("breakpoint", "the line @@{prev} -> node {elem} passes over a forced break");
                 }
+                out.judged += 1;
                 let bp = o.bps[bi];
                 let (mb, mfit) = o.fit(a, bi, pn.line + 1);
                 if *artificial {
@@ -388,51 +408,57 @@ fn check_steps(o: &kp::Oracle, log: &Log, got: Option<&Vec<usize>>) -> (u64, Opt
                     continue;
                 }
                 if *b as i64 != mb {
-                    return (steps, Some(("badness".into(), format!("@ node {elem} via @@{prev} (line {}): logged b={} p={p} d={d}, model b={} [line measures {:?}, width {}]", pn.line + 1, bad(*b as i64), bad(mb), o.meas[a][bi], o.line_width(pn.line + 1)))));
+                    value!("badness", "@ node {elem} via @@{prev} (line {}): logged b={} p={p} d={d}, model b={} [line measures {:?}, width {}]", pn.line + 1, bad(*b as i64), bad(mb), o.meas[a][bi], o.line_width(pn.line + 1));
                 }
                 if mb > o.threshold || mb > reftex::arith::INF_BAD {
-                    return (steps, Some(("feasibility".into(), format!("@ node {elem} via @@{prev}: a break with badness {} is logged as feasible, threshold {}", bad(mb), o.threshold))));
+                    value!("feasibility", "@ node {elem} via @@{prev}: a break with badness {} is logged as feasible, threshold {}", bad(mb), o.threshold);
                 }
                 if *p as i64 != bp.penalty {
-                    return (steps, Some(("penalty".into(), format!("@ node {elem} via @@{prev}: logged p={p}, model p={}", bp.penalty))));
+                    value!("penalty", "@ node {elem} via @@{prev}: logged p={p}, model p={}", bp.penalty);
                 }
                 let md = o.demerits(mb, &bp, pn.fit, mfit, pn.hyph);
                 if *d as i64 != md {
-                    return (steps, Some(("demerits".into(), format!("@ node {elem} via @@{prev}: logged b={b} p={p} d={d}, model d={md} (fitness {} -> {mfit}, hyphenated {} -> {})", pn.fit, pn.hyph, bp.hyph))));
+                    value!("demerits", "@ node {elem} via @@{prev}: logged b={b} p={p} d={d}, model d={md} (fitness {} -> {mfit}, hyphenated {} -> {})", pn.fit, pn.hyph, bp.hyph);
                 }
                 pending.push((*prev, mfit, pn.total + md));
             }
             Ev::Node { index, line, fit, hyph, total, prev } => {
-                if *index != table.len() {
-                    return (steps, Some(("bookkeeping".into(), format!("new active node @@{index} is not the next passive node ({})", table.len()))));
+                if table.contains_key(index) {
+                    structure!("a node number is reported twice");
                 }
-                let Some(pn) = table.get(*prev).copied() else {
-                    return (steps, Some(("bookkeeping".into(), format!("@@{index} names the unknown predecessor @@{prev}"))));
-                };
-                let hy = o.bp_at(cur_elem).map(|b| o.bps[b].hyph);
-                let ok = pending.iter().any(|(pp, mfit, mt)| pp == prev && *mfit == *fit && *mt == *total as i64);
-                if !ok || *line != pn.line + 1 || Some(*hyph) != hy {
-                    return (steps, Some(("active node".into(), format!("@@{index}: line {line}.{fit}{} t={total} -> @@{prev} at node {cur_elem} matches no feasible break logged there with the model's fitness class and total {:?} (predecessor line {}, break hyphenated {:?})", if *hyph { "-" } else { "" }, pending, pn.line, hy))));
+                let Some(pn) = table.get(prev).copied() else { structure!("an active node names a predecessor this harness has not seen") };
+                // the feasible break (logged at the same position) that this node comes from
+                let Some((_, mfit, mt)) = pending.iter().find(|(pp, _, _)| pp == prev).copied() else { structure!("an active node is reported without a feasible break from its predecessor at the position logged last") };
+                if *fit != mfit {
+                    value!("active node fitness class", "@@{index}: line {line}.{fit} t={total} -> @@{prev} at node {cur_elem}: the model's fitness class of that line is {mfit}");
                 }
-                table.push(NodeInfo { elem: Some(cur_elem), line: *line, fit: *fit, hyph: *hyph, total: *total as i64, prev: *prev });
+                if *total as i64 != mt {
+                    value!("active node total", "@@{index}: line {line}.{fit} t={total} -> @@{prev} at node {cur_elem}: the model's total is {mt}");
+                }
+                let hy = o.bp_at(cur_elem).map(|b| o.bps[b].hyph).unwrap_or(false);
+                if *line != pn.line + 1 || *hyph != hy {
+                    // bookkeeping fields of the crate's own record type: not TeX quantities the statement names
+                    out.structure.get_or_insert_with(|| "line number or hyphenation flag of an active node differ from the model's bookkeeping".into());
+                }
+                // the table carries the *model's* values, so later records are judged against TeX, not against the log
+                table.insert(*index, NodeInfo { elem: Some(cur_elem), line: pn.line + 1, fit: mfit, hyph: hy, total: mt, prev: *prev });
             }
             Ev::Selected(n) => {
-                // the returned breaks are the chain of predecessors of the selected node
                 let mut chain = vec![];
                 let mut i = *n;
                 while i > 0 {
-                    let Some(t) = table.get(i) else { break };
+                    let Some(t) = table.get(&i) else { break };
                     chain.push(t.elem.unwrap_or(usize::MAX));
                     i = t.prev;
                 }
                 chain.reverse();
                 if got != Some(&chain) {
-                    return (steps, Some(("bookkeeping".into(), format!("returned breaks {got:?} are not the predecessor chain {chain:?} of the selected node @@{n}"))));
+                    out.structure.get_or_insert_with(|| "the returned breaks are not the predecessor chain of the node reported as selected".into());
                 }
             }
         }
     }
-    (steps, None)
+    out
 }
 
 /// Triage aid: `C04_DEBUG_CLASS=<substring>` prints the first 8 cases of the matching outcome classes.
@@ -599,10 +625,22 @@ fn check_instance(idx: u64, inst: &Inst, acc: &mut Acc) {
     let e2e: Option<(&'static str, String)> = match (&want, &got) {
         (None, None) => None,
         (Some(_), None) => Some(("impl None, model Some", "None".into())),
-        (None, Some(gv)) => Some(("impl Some, model None", match o.eval(gv) {
-            Ok(t) => format!("Some({gv:?}), which the model evaluates as feasible with total {t} but the looseness rule excludes"),
-            Err(e) => format!("Some({gv:?}): {e}"),
-        })),
+        (None, Some(gv)) => {
+            // The statement's first sentence ("returns breakpoints iff some sequence is feasible") and
+            // TeX §873 (a pass that misses the requested looseness is given up, unless it is the final
+            // one) part ways when feasible sequences exist but the looseness is out of reach. Both
+            // answers conform: None (TeX), or the closest line count with minimal demerits (what the
+            // final pass returns). Recorded as an outcome class.
+            let closest = kp::looseness_choice(&br.per_count, loose);
+            match (o.eval(gv), closest) {
+                (Ok(gt), Some((lines, _))) if loose != 0 && gv.len() == lines && gt == br.per_count[&lines] => {
+                    acc.class("note: Some(closest line count, minimal demerits) although the requested looseness is out of reach (TeX §873 gives the pass up)");
+                    None
+                }
+                (Ok(gt), _) => Some(("impl Some, model None", format!("Some({gv:?}), feasible with total {gt}, but neither None nor the closest line count with minimal demerits"))),
+                (Err(e), _) => Some(("impl Some, model None", format!("Some({gv:?}): {e}"))),
+            }
+        }
         (Some((lines, t)), Some(gv)) => match o.eval(gv) {
             Err(e) => Some(("returned sequence infeasible", format!("Some({gv:?}): {e}"))),
             Ok(gt) if loose != 0 && gv.len() != *lines => Some(("wrong number of lines", format!("Some({gv:?}): {} lines, total {gt}", gv.len()))),
@@ -611,8 +649,12 @@ fn check_instance(idx: u64, inst: &Inst, acc: &mut Acc) {
         },
     };
     // per-step oracle
-    let (steps, step) = check_steps(&o, &log, got.as_ref());
-    acc.count_n("logged_feasible_breakpoints_checked", steps);
+    let st = check_steps(&o, &log, got.as_ref());
+    acc.count_n("logged_feasible_breakpoints_checked", st.judged);
+    if let Some(note) = &st.structure {
+        acc.class(&format!("note: per-step log not interpreted: {note}"));
+    }
+    let step = st.value;
     if e2e.is_none() && step.is_none() {
         acc.class(&format!("ok {} lines={} bps={}", if got.is_some() { "Some" } else { "None" }, got.as_ref().map(|gv| gv.len()).unwrap_or(0).min(9), o.bps.len()));
         return;
@@ -961,7 +1003,7 @@ fn main() {
     ctx.assume("lists have at most 12 legal breakpoints (every sequence of them is enumerated); glue in a paragraph has finite shrink (§825 makes anything else an error); discretionary lists are characters, the nodes a discretionary replaces are characters or font kerns (a directed probe shows the crate examines replaced nodes as ordinary nodes, so a replaced *explicit* kern followed by glue becomes a breakpoint where TeX §869 passes over it - outside the enumerated alphabet, reported in the build notes)");
     ctx.assume("total demerits stay below awful_bad = 2^30-1 (§833; TeX itself has no defence beyond it): instances where some feasible prefix reaches it are skipped and counted");
     ctx.assume("force_solution = true is only exercised when a feasible sequence exists (the artificial-demerits rescue of §854 is outside the property, which is stated for force_solution = false)");
-    ctx.assume("the per-step oracle trusts nothing of the log: the table of active nodes is rebuilt from the log, and every logged node must be explained by a feasible break logged at the same position whose fitness class and total the model computes itself");
+    ctx.assume("per-step oracle (debug::Logger is listed under observe_at): what the Logger reports must be true - b, p, d of every reported feasible breakpoint and the fitness class and total of every reported active node are recomputed by the model from (predecessor, position); legality of the break, forced breaks and the threshold are enforced. Which breakpoints/nodes are reported, their order, the node numbers, the line-number/hyphenation bookkeeping fields and log_selected_node are not judged (recorded as 'note:' outcome classes). The table of active nodes carries the model's values, not the logged ones");
 
     if let Some((_fam, case)) = ctx.replay_case() {
         let mut acc = Acc::default();
